@@ -20,6 +20,8 @@ No conversion factor, no dimension table for catalog units and no acceptance rul
 import math
 from fractions import Fraction
 
+# the big-rational comparison of FloatEnc.tla recurses over limb sequences: give TLC's worker threads room
+TLC_ENV = {"_JAVA_OPTIONS": "-Xss64m"}
 _GEN_BASE = {"g2": 2, "g3": 3, "g5": 5}
 DIMS = ("length", "mass", "time", "current", "temperature", "amount")
 
@@ -169,3 +171,42 @@ def observe(fn, *a, **kw):
         return {"v": fn(*a, **kw)}
     except Exception as e:  # noqa
         return {"raised": type(e).__name__, "msg": str(e)[:120]}
+
+
+# ------------------------------------------------------------------ several TLC configs at once
+def tlc_many(ctx, jobs, workers=4, parallel=4):
+    """Run several exhaustive configs concurrently (JVM start-up dominates the small slices).
+
+    jobs: list of dict(module, cfg, require_actions=(), require_cases=None, timeout=...).
+    Accounting and vacuity guards are exactly those of ``ctx.tlc`` (done serially afterwards)."""
+    from concurrent.futures import ThreadPoolExecutor
+    import core
+    import tlc as _tlc
+
+    def one(job):
+        try:
+            return _tlc.run_tlc(job["module"], job["cfg"], workers=job.get("workers", workers),
+                                coverage=bool(job.get("require_actions")), timeout=job.get("timeout", 1500))
+        except _tlc.TLCError as e:
+            return e
+
+    with ThreadPoolExecutor(max_workers=parallel) as ex:
+        results = list(ex.map(one, jobs))
+    out = []
+    for job, res in zip(jobs, results):
+        if isinstance(res, Exception):
+            raise core.MachineryFailure(str(res))
+        res.output = ""      # the raw text of a large slice is not needed once parsed
+        ctx.states += res.distinct
+        ctx.transitions += res.generated
+        ctx.tlc_runs.append(dict(module=job["module"], cfg=job["cfg"], **res.summary()))
+        for a in job.get("require_actions", ()):
+            t = sum(res.coverage.get(n, (0, 0))[1] for n in {a, a[3:] if a.startswith("Gen") else a})
+            ctx.coverage_actions["%s!%s" % (job["module"], a)] = t
+            if t == 0:
+                raise core.MachineryFailure("vacuity: action %s of %s never taken under %s" % (a, job["module"], job["cfg"]))
+        rc = job.get("require_cases")
+        if rc is not None and len(res.cases) < rc:
+            raise core.MachineryFailure("vacuity: %s/%s produced %d cases (< %d)" % (job["module"], job["cfg"], len(res.cases), rc))
+        out.append(res)
+    return out
